@@ -1,5 +1,5 @@
 SPECIFICATION TSpec
-CONSTANTS NLP = 3  MaxT = 6  TermTime = 1000000  Inf = 1073741824  NoneNeg = 0
+CONSTANTS NLP = 3  MaxT = 6  TermTime = 1000000  Inf = 1073741824  NoneNeg = 1
 CONSTRAINT Progress
 POSTCONDITION Post
 CHECK_DEADLOCK FALSE
